@@ -173,10 +173,10 @@ let () =
                          | None -> fail p.pstep "C13" "corr" "model mk_cube undefined"
                          | Some (s1, set) ->
                            (* hypothesis of pick_dd_set_eq: the set is a cube diagram with these literals *)
-                           (if kname <> "zbdd" then
-                              match Model.cube_lits view (nat (n + 1)) s1 set with
-                              | Some l2 when List.map (fun (l, b) -> (int_of_nat l, b)) l2 = List.map (fun (l, b) -> (int_of_nat l, b)) lits -> ()
-                              | _ -> fail p.pstep "C13" "corr" "model: cube_lits of the constructed literal set differs from the literals");
+                           (match (if kname = "zbdd" then Model.cube_lits_z (nat (n + 1)) s1 set
+                                   else Model.cube_lits view (nat (n + 1)) s1 set) with
+                            | Some l2 when List.map (fun (l, b) -> (int_of_nat l, b)) l2 = List.map (fun (l, b) -> (int_of_nat l, b)) lits -> ()
+                            | _ -> fail p.pstep "C13" "corr" "model: cube_lits of the constructed literal set differs from the literals");
                            let res =
                              match kname with
                              | "bdd" -> Model.pick_cube_dd_set_bdd s1 e set
